@@ -55,6 +55,16 @@ type List struct {
 
 type Tuple []Value
 
+// Chan is a channel under the sequential schedule (goroutines run to completion at their go statement): a FIFO queue.
+// An operation that would block - a receive from an empty open channel, a send beyond the capacity - cannot be
+// scheduled by this model and leaves it.
+type Chan struct {
+	Q      []Value
+	Cap    int
+	Closed bool
+	Elem   types.Type
+}
+
 type Closure struct {
 	Fn   *ssa.Function
 	Bind []Value
@@ -402,6 +412,18 @@ func (ip *Interp) CallFunction(fn *ssa.Function, args []Value, bind []Value) Val
 				m.M[keyOf(ip.eval(f, x.Key))] = ip.eval(f, x.Value)
 				m.IsNil = false
 			case *ssa.DebugRef:
+			case *ssa.Send:
+				ch, ok := ip.eval(f, x.Chan).(*Chan)
+				if !ok {
+					undecided("send on %s", Show(ip.eval(f, x.Chan)))
+				}
+				if ch.Closed {
+					panic(&GoPanic{Msg: "send on closed channel"})
+				}
+				if len(ch.Q) >= ch.Cap {
+					undecided("a send that blocks until somebody receives (the sequential model cannot schedule the receiver)")
+				}
+				ch.Q = append(ch.Q, ip.eval(f, x.X))
 			case *ssa.Go:
 				if !ip.GoInline {
 					undecided("go statement in %s", fn)
@@ -821,6 +843,11 @@ func (ip *Interp) builtin(name string, args []Value, site ssa.CallInstruction) V
 			return Int(len(x.M))
 		case Nil:
 			return Int(0)
+		case *Chan:
+			if name == "cap" {
+				return Int(x.Cap)
+			}
+			return Int(len(x.Q))
 		}
 		undecided("len of %s", Show(args[0]))
 	case "append":
@@ -856,6 +883,16 @@ func (ip *Interp) builtin(name string, args []Value, site ssa.CallInstruction) V
 		}
 		undecided("delete on %s", Show(args[0]))
 	case "print", "println":
+		return nil
+	case "close":
+		ch, ok := args[0].(*Chan)
+		if !ok {
+			undecided("close of %s", Show(args[0]))
+		}
+		if ch.Closed {
+			panic(&GoPanic{Msg: "close of closed channel"})
+		}
+		ch.Closed = true
 		return nil
 	case "copy":
 		dst, ok1 := args[0].(*List)
@@ -996,6 +1033,26 @@ func (ip *Interp) step(f *frame, v ssa.Value) Value {
 			if i, ok := a.(Int); ok {
 				return Int(-int64(i))
 			}
+		case token.ARROW:
+			ch, ok := a.(*Chan)
+			if !ok {
+				undecided("receive from %s", Show(a))
+			}
+			if len(ch.Q) > 0 {
+				v := ch.Q[0]
+				ch.Q = ch.Q[1:]
+				if x.CommaOk {
+					return Tuple{v, Bool(true)}
+				}
+				return v
+			}
+			if !ch.Closed {
+				undecided("a receive that blocks until somebody sends (the sequential model cannot schedule the sender)")
+			}
+			if x.CommaOk {
+				return Tuple{ip.ZeroOf(ch.Elem), Bool(false)}
+			}
+			return ip.ZeroOf(ch.Elem)
 		}
 		undecided("unary %s of %s", x.Op, Show(a))
 	case *ssa.BinOp:
@@ -1184,7 +1241,13 @@ func (ip *Interp) step(f *frame, v ssa.Value) Value {
 			}
 		}
 		return Tuple{Bool(false), Str(""), Nil{}}
-	case *ssa.Select, *ssa.MakeChan:
+	case *ssa.MakeChan:
+		n, ok := ip.eval(f, x.Size).(Int)
+		if !ok {
+			undecided("channel of unknown capacity")
+		}
+		return &Chan{Cap: int(n), Elem: x.Type().Underlying().(*types.Chan).Elem()}
+	case *ssa.Select:
 		undecided("instruction %T not modelled in %s", v, f.fn)
 	}
 	undecided("value %T not modelled in %s", v, f.fn)
